@@ -130,3 +130,32 @@ def c01_provenance(prop, tier, seed):
         out["violations"].append({"obligation": f"{prop}/table:c01_provenance", "replay": _viol(prop, "c01_provenance", bad),
                                   "reproduced": True, "text": f"{bad[0]}"})
     return out
+
+
+def c04_torsion_ranks(prop, tier, seed):
+    """Every template dihedral of every residue type / chain position: the atoms the real code would move form a
+    rigid group beyond the pivot (no backbone or terminal-cap atom, no bond cut except on the axis)."""
+    t = cache.get("torsion_ranks")
+    known = {(r, d, h) for r, d in (("ILE", "CA CB CG1 CD1"), ("THR", "CA CB OG1 HG1")) for h in ("HG21", "HG22", "HG23")}
+    bad, kn, n, nd = [], 0, 0, 0
+    for k, v in sorted(t.items()):
+        n += 1
+        if not v.get("ok"):
+            continue
+        nd += v["dihedrals"]
+        for b in v["bad"]:
+            res = k.split("|")[0]
+            if "bond_broken" in b and (res, b["dihedral"], b["bond_broken"][0]) in known:
+                kn += 1
+                continue
+            bad.append({"cell": k, "generator": "torsion_ranks", **b})
+    out = {"name": "c04_torsion_rank_table", "evaluations": nd, "obligations": nd, "discharged": nd - len(bad),
+           "counts_as_obligations": False, "violations": [], "undecided": [], "errors": [], "exhaustive": True,
+           "known_cells": kn,
+           "summary": f"{nd} (residue x position x dihedral) cells over {n} fragments: {len(bad)} move a backbone/cap atom or "
+                      f"cut a bond, {kn} cells belong to the known finding D13 (ILE chi2 / THR CA-CB-OG1-HG1 move the CG2 hydrogens)",
+           "assumptions": ["X: complete for the shipped AA.xml / PATCHES.xml templates and the dihedral lists they define"]}
+    if bad:
+        out["violations"].append({"obligation": f"{prop}/table:torsion_ranks", "replay": _viol(prop, "torsion_ranks", bad),
+                                  "reproduced": True, "text": f"{bad[0]}"})
+    return out
